@@ -253,7 +253,10 @@ V_HARNESS(h_read)
  * unlinked, a client that was not ready and did not time out is untouched.
  * ===================================================================================================== */
 #ifndef LOOPS
-#define LOOPS 2
+#define LOOPS 1
+#endif
+#ifndef RDOFF
+#define RDOFF 0
 #endif
 #define LP_STREAM (2 * 2 * C19_MAXCHUNK)
 
@@ -278,7 +281,14 @@ V_HARNESS(h_loop)
     c->io.sock_fd = 10 + (int) i;
     /* concrete, not assumed: symex then skips the service / channel recomputation of the unlink step (covered by upd_services, disconnect) */
     c->all_services = 0; c->services[0] = c->services[1] = c->services[2] = c->services[3] = 0;
-    c->chn_state.token_state = REQ_TOKEN_NONE; c->chn_profile.is_valid = 0;
+    c->chn_state.token_state = REQ_TOKEN_NONE; c->chn_profile.is_valid = 0; c->chn_status_ind = VBI_PROXY_CHN_NONE;
+    /* I/O state: client 0 is RDOFF bytes into a message (case split: the offset selects where recv() stores, it must be concrete);
+       I/O invariant: readOff < 8 => readLen == 0; else 8 <= readLen <= sizeof msg_buf and readOff < readLen; a read in progress => no write pending */
+    { uint32_t rl = in_u32();
+      if (i == 0 && RDOFF != 0) {
+        c->io.readOff = RDOFF; c->io.writeLen = 0; c->io.pWriteBuf = NULL;
+        if (RDOFF >= sizeof(VBIPROXY_MSG_HEADER)) { V_ASSUME(rl > RDOFF && rl <= sizeof(c->msg_buf)); c->io.readLen = rl; }
+      } }
   }
   w_link();
   w_queue();
@@ -306,7 +316,10 @@ V_HARNESS(h_loop)
       alive++;
       obs_clnt(&o1, W_cl[i]);
       V_ASSERT(o1.state != REQ_STATE_CLOSED && o1.sock_fd == 10 + (int) i, "listed_connections_are_open");
-      V_ASSERT(o1.readOff <= sizeof(W_cl[i]->msg_buf) && o1.readLen <= sizeof(W_cl[i]->msg_buf), "read_state_within_buffer");
+      V_ASSERT(o1.readOff < sizeof(VBIPROXY_MSG_HEADER) ? o1.readLen == 0
+               : (o1.readLen >= sizeof(VBIPROXY_MSG_HEADER) && o1.readLen <= sizeof(W_cl[i]->msg_buf) && o1.readOff < o1.readLen), "io_invariant_kept");
+      V_ASSERT(o1.readOff == 0 || o1.writeLen == 0, "no_write_while_reading");
+      if (o1.readOff != 0) V_REACH("partial");
       if (!touched[i] && o0[i].chn_status_ind == 0 &&
           !(o0[i].state == REQ_STATE_WAIT_CON_REQ && C19.now > o0[i].lastIoTime + SRV_IO_TIMEOUT))
       { o1.p_next = o0[i].p_next;                                         /* list linkage changes when a neighbour is unlinked */
